@@ -203,6 +203,8 @@ def classify(x, flavour):
             kind = "valid-request-not-served"
     elif e == "Early":
         kind = "answered-before-complete"
+    elif e == "Seen":
+        kind = "foreign-bytes-in-environment"
     elif e == "Probe":
         kind = "probe-failed"
     elif e == "Late":
